@@ -2,6 +2,7 @@
 CONSTANT Fam = "v3"
 CONSTANT Streams <- MCStreams
 CONSTANT Kinds <- MCKinds
+CONSTANT EmitStreams = FALSE
 SPECIFICATION FairSpec
 PROPERTY Terminates
 CHECK_DEADLOCK FALSE
